@@ -217,6 +217,10 @@ func (g *Gen) newHook(idx int, o *ChartOpts) ResSlot {
 	case 5:
 		h.Policies = []string{"before-hook-creation", "hook-succeeded", "hook-failed"}
 	}
+	if len(h.Policies) > 1 {
+		// the annotation is a comma-separated list; blanks around the commas are allowed
+		h.PolicySep = g.Pick(",", ",", ",", ", ", ", ", " , ")
+	}
 	s.Hook = h
 	return s
 }
